@@ -69,6 +69,8 @@ def run(ck):
         g["calls"] = calls_for(g, None, False, ck.rng); g["watchdog"] = 20; groups.append(g)
     for g in gen.dominant_family(ck.rng, 30 if q else 600, k=2) + gen.dominant_family(ck.rng, 10 if q else 200, k=3):
         g["calls"] = calls_for(g, None, False, ck.rng); g["watchdog"] = 20; groups.append(g)
+    for g in gen.heavy_item_family(ck.rng, 200 if q else 4000):   # one item >= all the others together, 3-5 bins
+        g["calls"] = calls_for(g, None, False, ck.rng); g["watchdog"] = 20; groups.append(g); ck.cat("heavy_item_family")
     groups += witness_groups(ck)
     # inputs on which a defect was once observed (kept as regression witnesses; see known_findings.json)
     for vals, k in (([68, 22, 72, 23, 31, 30, 4], 4), ([7, 4, 5, 5, 14, 7, 11, 11], 5), ([2, 2, 2, 3, 3, 5, 6], 4), ([12, 10, 8, 7, 6], 2), ([8, 5, 4, 2], 2)):
